@@ -21,6 +21,7 @@ EXPLANATION = (
     "executor submits on the non-dry-run path and visits every Handle leaf of (args, kwargs); C25.3 Handle.is_valid delegates to "
     "backend.is_valid_handle (falsy for unrecorded hashes); advance_handle records new states as valid (re-deriving a state makes it valid again via "
     "get_or_create defaults); rollback_handle invalidates exactly the transitive children of the handle among valid same-name handles."
+    ' C25.3 also: a (fork parent, fork) lineage pair may be gated by is_recorded of the fork only, never of the fork parent (guards of the collecting comprehension / append site).'
 )
 
 DB = "redun/backends/db/__init__.py"
